@@ -189,6 +189,25 @@ ADDED6 = {
 }
 for k, v in ADDED6.items():
     CHECKS[k]["text"] += v
+ADDED6B = {
+ "C01": " The Base58 / Base58Check layer under legacy addresses satisfies C07's table, checksum, exactness and purity clauses (filed as C01.base58).",
+ "C02": " Likewise C02.base58; no unguarded package-level state behind the decoders (C02.shared).",
+ "C03": " No unguarded package-level state behind the checksum functions (C03.shared).",
+ "C05": " The Base58 layer satisfies C07's table, checksum, exactness and purity clauses (C05.base58).",
+ "C06": " The Base58 layer satisfies C07's table, checksum, exactness and purity clauses (C06.base58).",
+ "C10": " The filter primitives satisfy C09's agreement, formula, monotonicity, unloaded-filter and decision clauses (C10.filter); no unguarded package-level state (C10.shared).",
+ "C11": " No unguarded package-level state behind the builders (C11.shared).",
+ "C12": " No unguarded package-level state behind extraction (C12.shared).",
+ "C13": " No unguarded package-level state in package gcs (C13.shared).",
+ "C14": " No unguarded package-level state in gcs and gcs/builder (C14.shared).",
+ "C15": " No unguarded package-level state in hdkeychain (C15.shared).",
+ "C16": " No unguarded package-level state behind the wrappers (C16.shared).",
+ "C18": " No unguarded package-level state in txsort (C18.shared).",
+ "C19": " No unguarded package-level state in coinset (C19.shared).",
+ "C20": " No unguarded package-level state behind bloom.Filter and gcs.Filter (C20.shared).",
+}
+for k, v in ADDED6B.items():
+    CHECKS[k]["text"] += v
 CHECKS["C08"]["text"] = CHECKS["C08"]["text"].replace("For all 73 in-repo functions", "For all in-repo functions").replace("(5 named exceptions, each with a premise the prover still checks)", "(named exceptions, each with a premise the prover still checks)")
 
 CHECKS["C17"] = dict(
